@@ -83,9 +83,64 @@ def handleAnnot (rest : String) : String :=
     | _, _ => "ERR bad-astx"
   | _ => "ERR bad-sexp"
 
+mutual
+partial def findNode (t : Nat) (e : Expr) : Option Expr :=
+  if e.id == t then some e else
+  match e with
+  | .binop _ _ _ l r => (findNode t l).or (findNode t r)
+  | .letE _ _ _ x => findNode t x
+  | .assign _ _ _ x => findNode t x
+  | .update _ _ _ _ x => findNode t x
+  | .ifE _ _ c th el => ((findNode t c).or (findNodeL t th)).or (match el with | some b => findNodeL t b | none => none)
+  | .whileE _ _ c b => (findNode t c).or (findNodeL t b)
+  | .forE _ _ _ x b => (findNode t x).or (findNodeL t b)
+  | .matchE _ _ x cs => (findNode t x).or (cs.findSome? fun | .mk _ _ b => findNodeL t b)
+  | .ret _ _ (some x) => findNode t x
+  | .list _ _ es => findNodeL t es
+  | .tuple _ _ es => findNodeL t es
+  | .call _ _ r as => (findNode t r).or (findNodeL t as)
+  | .lambda _ _ _ b => findNodeL t b
+  | .paren _ _ x => findNode t x
+  | _ => none
+partial def findNodeL (t : Nat) (es : List Expr) : Option Expr := es.findSome? (findNode t)
+end
+
+def findNodeP (t : Nat) (p : Program) : Option Expr :=
+  (p.funs.findSome? fun d => findNodeL t d.body).or (findNodeL t p.toplevel)
+
+def pureAt (t : Nat) (p : Program) : Bool :=
+  match findNodeP t p with
+  | some e => pureE (ctorsOf p) e
+  | none => false
+
+/-- `hoist_check <target id> <name> <astx before> <astx after>`:
+`OK (hoist <IsLetHoist> <Pure e> <nodes with that id> <name fresh>)`. -/
+def handleHoist (rest : String) (isFun : Bool) : String :=
+  match rest.splitOn " " with
+  | target :: name :: sexpParts =>
+    match target.toNat?, Sexp.parseAll (" ".intercalate sexpParts) with
+    | some t, some [sa, sb] =>
+      if parseErrs sa != 0 || parseErrs sb != 0 then "OK (extract parse-error)" else
+      match parseProg (unhint sa).1, parseProg (unhint sb).1 with
+      | some pa, some pb =>
+        match pa.unsupported, pb.unsupported with
+        | none, none =>
+          let p := pa.prog
+          let chk := if isFun then funextCheck p pb.prog t name else hoistCheck p pb.prog t name
+          let ps := match pb.prog.funs.find? (fun d => d.name == name) with
+            | some d => String.join (d.params.map fun x => " " ++ x)
+            | none => ""
+          s!"OK (extract {b01 chk} {b01 (pureAt t p)} {hitsProg t p} {b01 (freshProg name p)} (params{ps}))"
+        | _, _ => "OK (extract unsupported)"
+      | _, _ => "ERR bad-astx"
+    | _, _ => "ERR bad-args"
+  | _ => "ERR args"
+
 def handle (op : String) (rest : String) : Option String :=
   if op == "dbgwrap_check" then some (handleDbgwrap rest)
   else if op == "annot_check" then some (handleAnnot rest)
+  else if op == "hoist_check" then some (handleHoist rest false)
+  else if op == "funext_check" then some (handleHoist rest true)
   else none
 
 end DriverExtract
